@@ -49,7 +49,8 @@ Inductive outcome (L : Type) :=
 | ORaise (e : exc).
 Arguments OYield {L}. Arguments ODelegate {L}. Arguments OReturn {L}. Arguments ORaise {L}.
 
-Inductive op := Next | Send (v : val) | Throw (e : exc) | Close | Del.
+(* ThrowNC: __Pyx__Coroutine_Throw / _gen_throw with close_on_genexit = 0 (the async generator layer) *)
+Inductive op := Next | Send (v : val) | Throw (e : exc) | Close | Del | ThrowNC (e : exc).
 Inductive result :=
 | RYield (v : val) | RRaise (e : exc) | RNone     (* close()/del returned *)
 | RUnraisable (e : exc)                           (* del: reported through sys.unraisablehook *)
@@ -58,9 +59,17 @@ Inductive result :=
 Definition is_none (v : val) : bool := match v with VNone => true | _ => false end.
 Definition is_stopiter (e : exc) : bool := match e with EStopIter _ => true | _ => false end.
 Definition is_genexit (e : exc) : bool := match e with EGenExit => true | _ => false end.
+(* StopAsyncIteration: exception class 8 of the harness *)
+Definition EStopAsync : exc := EUser (-2).
+Definition is_stopasync (e : exc) : bool := match e with EUser id => id =? -2 | _ => false end.
 
 (* PEP 479: __Pyx_Generator_Replace_StopIteration / CPython's STOPITERATION_ERROR intrinsic *)
-Definition pep479 (e : exc) : exc := if is_stopiter e then ERuntime 0 else e.
+Definition pep479 (agen : bool) (e : exc) : exc :=
+  match e with
+  | EStopIter _ => ERuntime 0
+  | EUser id => if (id =? -2) && agen then ERuntime 3 else e   (* "async generator raised StopAsyncIteration" *)
+  | _ => e
+  end.
 
 (* value sent to the sub-iterator: None -> tp_iternext, else the send method *)
 Definition sub_send (it : subiter) (v : val) : sres * subiter :=
@@ -68,9 +77,11 @@ Definition sub_send (it : subiter) (v : val) : sres * subiter :=
   else match si_send it with Some f => f v | None => (SErr EAttr, it) end.
 
 Record fixes := { fx_first_send : bool; fx_throw_si_fresh : bool; fx_close_ret : bool;
-                  fx_si_at_yf : bool }.
-Definition fx_none := {| fx_first_send := false; fx_throw_si_fresh := false; fx_close_ret := false; fx_si_at_yf := false |}.
-Definition fx_all := {| fx_first_send := true; fx_throw_si_fresh := true; fx_close_ret := true; fx_si_at_yf := true |}.
+                  fx_si_at_yf : bool; fx_ag_fresh_del : bool }.
+Definition fx_none := {| fx_first_send := false; fx_throw_si_fresh := false; fx_close_ret := false; fx_si_at_yf := false;
+                         fx_ag_fresh_del := false |}.
+Definition fx_all := {| fx_first_send := true; fx_throw_si_fresh := true; fx_close_ret := true; fx_si_at_yf := true;
+                        fx_ag_fresh_del := true |}.
 
 Inductive rlabel (L : Type) := RFresh | RAt (k : L) | RDone.
 Arguments RFresh {L}. Arguments RAt {L}. Arguments RDone {L}.
@@ -91,6 +102,7 @@ Variable L : Type.
 Variable start : L.
 Variable step : L -> input -> outcome L.
 Variable coro : bool.     (* coroutine object instead of generator *)
+Variable agen : bool.     (* async generator object (then coro = false) *)
 
 Definition log := list (L * input).      (* resumptions of user code, in order *)
 
@@ -104,7 +116,7 @@ Definition c_set_yf (s : cstate L) (y : option subiter) := CState (c_label s) (c
 
 (* body epilogue: error label (PEP 479), resume_label = -1, __Pyx_Coroutine_clear *)
 Definition cy_exit_error (s : cstate L) (e : exc) : gres * cstate L :=
-  (GError (pep479 e), CState RDone (c_running s) None).
+  (GError (pep479 agen e), CState RDone (c_running s) None).
 
 Definition cy_run_user (s : cstate L) (k : L) (i : input) : gres * cstate L * log :=
   match step k i with
@@ -132,7 +144,7 @@ Definition cy_send_ex (s : cstate L) (a : sendarg) (closing : bool) : gres * cst
       (* __Pyx_Coroutine_AlreadyTerminatedError *)
       if coro && negb closing then (GError (ERuntime 2), s, [])
       else match a with
-           | AVal _ => (GError (EStopIter VNone), s, [])
+           | AVal _ => (GError (if agen then EStopAsync else EStopIter VNone), s, [])
            | AExc e => (GError e, s, [])
            end
   | _ => cy_body s a
@@ -179,7 +191,11 @@ Definition cy_amsend (s : cstate L) (v : val) : gres * cstate L * log :=
 
 (* __Pyx__Coroutine_MethodReturnFromResult *)
 Definition result_of_gres (r : gres) : result :=
-  match r with GNext v => RYield v | GReturn v => RRaise (EStopIter v) | GError e => RRaise e end.
+  match r with
+  | GNext v => RYield v
+  | GReturn v => RRaise (if agen then EStopAsync else EStopIter v)
+  | GError e => RRaise e
+  end.
 
 (* __Pyx_Coroutine_CloseIter: None = ok *)
 Definition cy_close_iter (it : subiter) : option exc * subiter :=
@@ -207,14 +223,14 @@ Definition cy_close (s : cstate L) : gres * cstate L * log :=
     | GNext _ => (GError (ERuntime 1), s4, l)
     end.
 
-(* __Pyx__Coroutine_Throw (close_on_genexit = 1) *)
-Definition cy_throw (s : cstate L) (e : exc) : gres * cstate L * log :=
+(* __Pyx__Coroutine_Throw *)
+Definition cy_throw (close_on_genexit : bool) (s : cstate L) (e : exc) : gres * cstate L * log :=
   if c_running s then (GError (EValue 0), s, [])
   else
     let s1 := c_set_running s true in
     match c_yf s1 with
     | Some it =>
-        if is_genexit e then
+        if is_genexit e && close_on_genexit then
           let '(err, it') := cy_close_iter it in
           let s2 := c_set_yf s1 None in
           match err with
@@ -237,7 +253,7 @@ Definition cy_throw (s : cstate L) (e : exc) : gres * cstate L * log :=
 Definition cy_del (s : cstate L) : result * cstate L * log :=
   match c_label s with
   | RDone => (RNone, s, [])
-  | RFresh => if coro then (RWarn, s, []) else (RNone, s, [])
+  | RFresh => if coro || (agen && negb (fx_ag_fresh_del fx)) then (RWarn, s, []) else (RNone, s, [])
   | RAt _ =>
       let '(r, s', l) := cy_close s in
       match r with GError e => (RUnraisable e, s', l) | _ => (RNone, s', l) end
@@ -247,7 +263,8 @@ Definition cy_op (s : cstate L) (o : op) : result * cstate L * log :=
   match o with
   | Next => let '(r, s', l) := cy_amsend s VNone in (result_of_gres r, s', l)
   | Send v => let '(r, s', l) := cy_amsend s v in (result_of_gres r, s', l)
-  | Throw e => let '(r, s', l) := cy_throw s e in (result_of_gres r, s', l)
+  | Throw e => let '(r, s', l) := cy_throw true s e in (result_of_gres r, s', l)
+  | ThrowNC e => let '(r, s', l) := cy_throw false s e in (result_of_gres r, s', l)
   | Close => let '(r, s', l) := cy_close s in
              (match r with GError e => RRaise e | _ => RNone end, s', l)
   | Del => cy_del s
@@ -273,7 +290,7 @@ Definition py_send_ex (s : pstate L) (a : sendarg) (closing : bool) : gres * pst
           | OYield v k' => (GNext v, PSuspended k' None, [(start, ISend VNone)])
           | ODelegate v it k' => (GNext v, PSuspended k' (Some it), [(start, ISend VNone)])
           | OReturn v => (GReturn v, PCompleted, [(start, ISend VNone)])
-          | ORaise e => (GError (pep479 e), PCompleted, [(start, ISend VNone)])
+          | ORaise e => (GError (pep479 agen e), PCompleted, [(start, ISend VNone)])
           end
       | AVal _ => (GError (EType 0), s, [])
       | AExc e => (GError e, PCompleted, [])    (* raised at RETURN_GENERATOR: no handler, no PEP 479 wrapper *)
@@ -284,7 +301,7 @@ Definition py_send_ex (s : pstate L) (a : sendarg) (closing : bool) : gres * pst
       | OYield v k' => (GNext v, PSuspended k' None, [(k, i)])
       | ODelegate v it k' => (GNext v, PSuspended k' (Some it), [(k, i)])
       | OReturn v => (GReturn v, PCompleted, [(k, i)])
-      | ORaise e => (GError (pep479 e), PCompleted, [(k, i)])
+      | ORaise e => (GError (pep479 agen e), PCompleted, [(k, i)])
       end
   end.
 
@@ -312,10 +329,10 @@ Definition py_close_iter (it : subiter) : option exc * subiter :=
   end.
 
 (* _gen_throw *)
-Definition py_throw (s : pstate L) (e : exc) : gres * pstate L * log :=
+Definition py_throw (close_on_genexit : bool) (s : pstate L) (e : exc) : gres * pstate L * log :=
   match s with
   | PSuspended k (Some it) =>
-      if is_genexit e then
+      if is_genexit e && close_on_genexit then
         let '(err, it') := py_close_iter it in
         match err with
         | Some e' => py_send_ex (PSuspended k None) (py_arg_at_yf e') false
@@ -368,7 +385,8 @@ Definition py_op (s : pstate L) (o : op) : result * pstate L * log :=
   match o with
   | Next => let '(r, s', l) := py_send s VNone in (result_of_gres r, s', l)
   | Send v => let '(r, s', l) := py_send s v in (result_of_gres r, s', l)
-  | Throw e => let '(r, s', l) := py_throw s e in (result_of_gres r, s', l)
+  | Throw e => let '(r, s', l) := py_throw true s e in (result_of_gres r, s', l)
+  | ThrowNC e => let '(r, s', l) := py_throw false s e in (result_of_gres r, s', l)
   | Close => let '(r, s', l) := py_close s in
              (match r with GError e => RRaise e | _ => RNone end, s', l)
   | Del => py_del s
@@ -475,22 +493,22 @@ Variable fx : fixes.
 
 CoFixpoint cy_gen_sub (s : cstate Z) : subiter :=
   SubIter
-    (let x := cy_op Z start step coro fx s Next in (sres_of_result (fst (fst x)), cy_gen_sub (snd (fst x))))
-    (Some (fun v => let x := cy_op Z start step coro fx s (Send v) in
+    (let x := cy_op Z start step coro false fx s Next in (sres_of_result (fst (fst x)), cy_gen_sub (snd (fst x))))
+    (Some (fun v => let x := cy_op Z start step coro false fx s (Send v) in
                     (sres_of_result (fst (fst x)), cy_gen_sub (snd (fst x)))))
-    (Some (fun e => let x := cy_op Z start step coro fx s (Throw e) in
+    (Some (fun e => let x := cy_op Z start step coro false fx s (Throw e) in
                     (sres_of_result (fst (fst x)), cy_gen_sub (snd (fst x)))))
-    (Some (let x := cy_op Z start step coro fx s Close in
+    (Some (let x := cy_op Z start step coro false fx s Close in
            (close_of_result (fst (fst x)), cy_gen_sub (snd (fst x))))).
 
 CoFixpoint py_gen_sub (s : pstate Z) : subiter :=
   SubIter
-    (let x := py_op Z start step coro s Next in (sres_of_result (fst (fst x)), py_gen_sub (snd (fst x))))
-    (Some (fun v => let x := py_op Z start step coro s (Send v) in
+    (let x := py_op Z start step coro false s Next in (sres_of_result (fst (fst x)), py_gen_sub (snd (fst x))))
+    (Some (fun v => let x := py_op Z start step coro false s (Send v) in
                     (sres_of_result (fst (fst x)), py_gen_sub (snd (fst x)))))
-    (Some (fun e => let x := py_op Z start step coro s (Throw e) in
+    (Some (fun e => let x := py_op Z start step coro false s (Throw e) in
                     (sres_of_result (fst (fst x)), py_gen_sub (snd (fst x)))))
-    (Some (let x := py_op Z start step coro s Close in
+    (Some (let x := py_op Z start step coro false s Close in
            (close_of_result (fst (fst x)), py_gen_sub (snd (fst x))))).
 End GenSub.
 
@@ -570,10 +588,10 @@ End TableBody.
 
 Definition run_table_cy (tbl : table) (coro : bool) (fx : fixes) (d : nat) (k0 : Z) (h : list op)
   : list (result * list (Z * input)) :=
-  fst (run_cy Z k0 (tstep tbl coro fx false d) coro fx (c_init Z) h).
+  fst (run_cy Z k0 (tstep tbl coro fx false d) coro false fx (c_init Z) h).
 Definition run_table_py (tbl : table) (coro : bool) (d : nat) (k0 : Z) (h : list op)
   : list (result * list (Z * input)) :=
-  fst (run_py Z k0 (tstep tbl coro fx_all true d) coro (p_init Z) h).
+  fst (run_py Z k0 (tstep tbl coro fx_all true d) coro false (p_init Z) h).
 (* result of an operation on an object that is currently running (re-entrant call) *)
 Definition running_probe_cy (coro : bool) (fx : fixes) (o : op) : result :=
-  fst (fst (cy_op Z 0 (fun _ _ => OReturn VNone) coro fx (CState (RAt 0) true None) o)).
+  fst (fst (cy_op Z 0 (fun _ _ => OReturn VNone) coro false fx (CState (RAt 0) true None) o)).
